@@ -5,5 +5,5 @@ cd "$(dirname "$0")"
 export CARGO_NET_OFFLINE=true
 mkdir -p work evidence replays
 [ -f tools/Cargo.lock ] || cp /repo/Cargo.lock tools/Cargo.lock
-(cd tools && cargo build -q)
+(cd tools && cargo build -q --target-dir "$PWD/../work/target")
 echo "setup ok"
